@@ -151,8 +151,21 @@ fn build(rng: &mut Rng) -> Plan {
         items.push(Item::Stanza(GStanza { query: q.into(), pool: None, stmts, loc: Loc::default() }));
         features.push("graph_node_valued_scoped_variable");
     }
-    // readers
-    let nreaders = rng.range(1, 4);
+    // an assignment reaches exactly the node it names: on a node that lacks the variable it is an
+    // error (also when an ancestor has it and the name is inherited), never a silent definition
+    if use_var && rng.chance(1, 3) {
+        let k = rng.below(KINDS.len());
+        let (_, q, cap) = KINDS[k];
+        let n = *rng.pick(NAMES);
+        items.push(Item::Stanza(GStanza { query: q.into(), pool: None, stmts: vec![stmt(StmtKind::Set(GVar::s(GExpr::cap(cap), n), GExpr::str("assigned")))], loc: Loc::default() }));
+        features.push(if defs.contains(&(k, n)) { "assignment_to_defined_scoped_variable" } else { "assignment_to_scoped_variable_missing_on_that_node" });
+    }
+    // readers (now and then none at all: definitions nobody reads are still checked for duplicates)
+    let definitions_only = rng.chance(1, 12);
+    if definitions_only {
+        features.push("definitions_without_any_reader");
+    }
+    let nreaders = if definitions_only { 0 } else { rng.range(1, 4) };
     for ri in 0..nreaders {
         let (q, caps) = *rng.pick(READERS);
         let mut stmts = Vec::new();
